@@ -1,12 +1,15 @@
 SPECIFICATION Spec
 CONSTANTS
+  r1 = r1
+  r2 = r2
   PKind = "poll1"
   Mutant = "none"
   Srcs <- MCSrcs
   Reqs <- MCReqs
   Segs <- MCSegs
-  MaxEnv = 3
+  MaxEnv = 2
   MaxVer = 3
+  Stamped = FALSE
+SYMMETRY ReqSymmetry
 INVARIANTS InvE1 InvE2 InvE3 InvE4 InvContract InvTypes
-PROPERTY InvalidKeeps
 CHECK_DEADLOCK FALSE
